@@ -3,6 +3,6 @@ CONSTANTS Keys = {1, 2}
           Datas = {1, 2}
           Zero = {2}
           D = 2
-          GAttrs = {"ok", "expired", "negttl"}
+          GAttrs = {"ok"}
 INVARIANTS Emit
 CHECK_DEADLOCK FALSE
